@@ -303,7 +303,9 @@ def check_side_letters(ctx, prog):
     ffn = find_impl(prog, 'std::str::FromStr', 'engine::GameState', 'from_str')
     if dfn and ffn:
         silver_letters = set()
-        for name in [ffn] + prog.closures_of(ffn):
+        helper_fns = sorted(n for n in prog.reachable([ffn], follow=lambda n: 'FromStr' not in n or n == ffn)
+                            if n in prog.fns and n != ffn and n.startswith('display::'))
+        for name in [ffn] + prog.closures_of(ffn) + helper_fns:
             for b in prog.fns[name]['blocks']:
                 t = b['term']
                 if t['k'] == 'call' and (prog.callee(t) or '').endswith('::ne'):
@@ -413,7 +415,8 @@ def check_header(ctx, prog, parser_interp):
         return
     tail = ''.join(lits) + ' +-----------------+\n8'
     # 2. the parser's pattern and the groups it reads
-    pats = [t for (fn, at, t) in parser_interp.regex_patterns if fn == ffn or fn.startswith(ffn)]
+    helpers = set(n for n in prog.reachable([ffn], follow=lambda n: 'FromStr' not in n or n == ffn) if n in prog.fns)
+    pats = [t for (fn, at, t) in parser_interp.regex_patterns if fn == ffn or fn.startswith(ffn) or fn in helpers]
     if len(pats) != 1 or pats[0] is None:
         ctx.finding('C15.hdr', ffn, 'pattern', 'expected one constant header pattern in the parser, found %r' % (pats,))
         return
@@ -472,21 +475,35 @@ def check_parsed_board_consistent(ctx, prog, prop, full=False):
     newfn = prog.one('PieceBoard::new')
     if not (ctx.anchor('impl FromStr for GameState', ffn is not None) and ctx.anchor('fn PieceBoard::new', newfn is not None)):
         return
-    body = prog.fns[ffn]
     I = inputs.make_interp(prog, fuel=20000000)
     I.strict_unknown = False
-    inner_of, loops = I.loopinfo(body)
-    sites = []
-    for bi, blk in enumerate(body['blocks']):
-        t = blk['term']
-        if t['k'] == 'call' and (prog.callee(t) or '').endswith('as std::iter::Iterator>::next') and not blk.get('cleanup'):
-            depth = sum(1 for h, bs in loops.items() if bi in bs)
-            dty = body['locals'][t['dst']['l']] if t.get('dst') and not t['dst']['p'] else ''
-            if depth == 0:
-                continue           # a `next()` outside the loops (e.g. taking the header section first) drives no loop
-            sites.append((depth, bi, t, dty))
-    sites.sort(key=lambda x: (x[0], x[1]))
-    ok = len(sites) == 2 and sites[0][0] == 1 and sites[1][0] == 2 and 'char' in sites[1][3] and 'str' in sites[0][3]
+
+    def loop_sites(fname):
+        body = prog.fns[fname]
+        inner_of, loops = I.loopinfo(body)
+        out = []
+        for bi, blk in enumerate(body['blocks']):
+            t = blk['term']
+            if t['k'] == 'call' and ((prog.callee(t) or '').endswith('as std::iter::Iterator>::next') or
+                                     (prog.callee(t) or '') == 'std::iter::Iterator::next') and not blk.get('cleanup'):
+                depth = sum(1 for h, bs in loops.items() if bi in bs)
+                dty = body['locals'][t['dst']['l']] if t.get('dst') and not t['dst']['p'] else ''
+                if depth == 0:
+                    continue           # a `next()` outside the loops (e.g. taking the header section first) drives no loop
+                out.append((depth, bi, t, dty))
+        out.sort(key=lambda x: (x[0], x[1]))
+        return out
+
+    def is_grid(ss):
+        return len(ss) == 2 and ss[0][0] == 1 and ss[1][0] == 2 and 'char' in ss[1][3] and 'str' in ss[0][3]
+    sites = loop_sites(ffn)
+    if not is_grid(sites):
+        # the row / column loops may live in a helper the parser calls (`parse_board_rows(sections)`)
+        for cand in sorted(prog.reachable([ffn], follow=lambda n: 'FromStr' not in n or n == ffn)):
+            if cand != ffn and cand in prog.fns and not prog.fns[cand].get('trait_impl') and is_grid(loop_sites(cand)):
+                sites = loop_sites(cand)
+                break
+    ok = is_grid(sites)
     ctx.ob('the parser has an outer loop over lines and an inner loop over characters', ok)
     if not ok:
         ctx.finding(R, ffn, 'shape', 'expected a line loop containing a character loop driven by Iterator::next; found %s'
